@@ -937,14 +937,62 @@ def uniform_post(ctx, f):
     ctx.check(len(il) == 1, R, f, block, "samples are emitted when the last channel of a block is decoded", "no `if chan == nchan - 1` emission step")
     if il:
         stores = [s for s in il[0].body if isinstance(s, ast.Assign) and astq.eq_text(s.targets[0], "data[:nitem]")]
-        ok = stores and astq.in_texts(stores[0].value, ("buffer[:,nwrap:blocksize+nwrap].T.flat", "buffer[:,nwrap:nwrap+blocksize].T.flat",))
-        ctx.check(bool(ok), R, f, stores[0] if stores else MISSING(il[0]), "channels are interleaved sample by sample (transpose, flat)",
-                  "emission is %s" % (astq.text(stores[0].value) if stores else None))
+        verdict = _interleave(stores[0].value) if stores else None
+        if verdict is None:
+            ctx.check(False, R, f, stores[0] if stores else MISSING(il[0]), "channels are interleaved sample by sample (transpose, flat)",
+                      "emission is %s" % (astq.text(stores[0].value) if stores else None), structural=True)
+        else:
+            ctx.check(verdict, R, f, stores[0], "channels are interleaved sample by sample (transpose, flat)",
+                      "emission is %s: the block is flattened channel by channel, not sample by sample" % astq.text(stores[0].value))
         ni = [s for s in il[0].body if isinstance(s, ast.Assign) and astq.is_name(s.targets[0], "nitem")]
         ctx.check(bool(ni) and astq.in_texts(ni[0].value, ("blocksize*nchan", "nchan*blocksize",)), R, f, ni[0] if ni else MISSING(il[0]),
                   "a block emits blocksize x nchan samples", structural=True)
     ch = [s for s in ast.walk(block) if isinstance(s, ast.Assign) and astq.is_name(s.targets[0], "chan")][-1]
     ctx.check(astq.eq_text(ch.value, "(chan+1)%nchan"), R, f, ch, "channels are decoded round-robin", "channel advance is %s" % astq.text(ch.value), structural=True)
+
+
+def _interleave(e):
+    """The emitted value is the (channels x samples) block flattened.  True: sample-major (all channels of sample 0, then of sample
+    1 ...: what the data layout needs); False: channel-major; None: not a flattening of buffer[:, nwrap:nwrap+blocksize] this rule
+    can read.  Flattening in C order after a transpose, or in Fortran order without one, is sample-major."""
+    fortran = transposed = False
+    flat = False
+    for _ in range(6):
+        if isinstance(e, ast.Attribute) and e.attr == "flat":
+            flat, e = True, e.value
+        elif isinstance(e, ast.Attribute) and e.attr == "T":
+            transposed, e = not transposed, e.value
+        elif isinstance(e, ast.Call) and isinstance(e.func, ast.Attribute) and e.func.attr in ("ravel", "flatten", "reshape", "transpose", "swapaxes", "copy"):
+            a = e.func.attr
+            base = e.func.value
+            args = list(e.args)
+            if isinstance(base, ast.Name) and base.id in ("np", "numpy") and args:
+                base, args = args[0], args[1:]
+            order = astq.kw(e, "order")
+            if a in ("ravel", "flatten", "reshape"):
+                if a == "reshape" and not (len(args) == 1 and astq.text(args[0]).replace(" ", "") in ("-1", "(-1,)")):
+                    return None
+                if a != "reshape" and args:
+                    order = order or args[0]
+                if order is not None:
+                    if not (isinstance(order, ast.Constant) and order.value in ("C", "F")):
+                        return None
+                    fortran = order.value == "F"
+                flat = True
+            elif a == "transpose":
+                if args and astq.text(args[0]).replace(" ", "") not in ("(1,0)", "1"):
+                    return None
+                transposed = not transposed
+            elif a == "swapaxes":
+                transposed = not transposed
+            e = base
+        else:
+            break
+    if not flat or not isinstance(e, ast.Subscript) or not astq.is_name(e.value, "buffer"):
+        return None
+    if astq.text(e.slice).replace(" ", "").strip("()") not in (":,nwrap:blocksize+nwrap", ":,nwrap:nwrap+blocksize"):
+        return None
+    return transposed != fortran
 
 
 def _loop_nodes(cfg, block):
